@@ -128,9 +128,11 @@ def _types(env):
 
 @st.composite
 def leaf(draw, env, want_nonconst=False):
-    opts = ["src"]
+    opts = ["src"] if env.srcs else []
     if any(not n.startswith("__") for n in env.vars):
         opts += ["var", "var"]
+    if not opts:
+        return draw(lit_any(env.features))
     if env.imms:
         opts.append("imm")
     if env.aliases:
@@ -257,7 +259,9 @@ def expr(draw, env, depth, allow_hybrid=False):
         return ("post", draw(st.sampled_from(["++", "--"])), ("var", n))
     if k == "call":
         name = draw(st.sampled_from(env.call_family))
-        return ("call", name, [sub()])
+        sd = env.subs.get(name)
+        nargs = sum(1 for p_ in sd.params if p_[0] == "val") if sd is not None else 1
+        return ("call", name, [sub() for _ in range(nargs)])
     if k == "stmtexpr":
         n = env.fresh("g")
         t = draw(st.sampled_from(WIDE_TYPES))
@@ -485,8 +489,9 @@ def _su_widen(src, dst):
     return src[0] and not dst[0] and dst[1] > src[1]
 
 
-def normalize(stmts, features, subs=None, stats=None):
+def normalize(stmts, features, subs=None, stats=None, vartypes=None):
     vt = {"EA": (False, 32), "i": (False, 32), "j": (False, 32), "k": (False, 32)}
+    vt.update(vartypes or {})
     subs = subs or default_subs()
     stats = stats if stats is not None else {}
 
@@ -641,3 +646,102 @@ def normalize(stmts, features, subs=None, stats=None):
         return ex(e)
 
     return [st_(s) for s in stmts]
+
+
+# --------------------------------------------------------------------------------------------------------
+# generated sub-routines (C08) -------------------------------------------------------------------------------
+
+class SubSpec:
+    def __init__(self, name, ret, params, body):
+        self.name, self.ret, self.params, self.body = name, ret, params, body   # params: [(ctype, name)]
+
+    def c_params(self):
+        from .cref.show import type_text
+        return [f"{type_text(t)} {n}" for t, n in self.params]
+
+    def c_ret(self):
+        from .cref.show import type_text
+        return type_text(self.ret)
+
+    def c_body(self):
+        from .cref import show
+        return show.program(self.body)
+
+
+@st.composite
+def subroutine(draw, features, name, earlier=(), prefix_locals=True):
+    """a value-returning sub-routine over integer parameters; `earlier` = SubSpecs it may call"""
+    f = frozenset(features)
+    types = INT_TYPES if "narrow" in f else WIDE_TYPES
+    nparams = draw(st.integers(1, 3))
+    params = [(draw(st.sampled_from(types)), f"{name}_p{i}" if prefix_locals else f"p{i}") for i in range(nparams)]
+    ret = draw(st.sampled_from(types))
+    env = Env(f, [], [], [], [], [], [])
+    env.vars = {n: t for t, n in params}
+    env.readonly = {n for t, n in params}
+    env.n = 0
+    pre = (name + "_v") if prefix_locals else "v"
+    env.fresh = lambda p="v", _e=env, _pre=pre: _bump(_e, _pre)
+    env.call_family = [s.name for s in earlier]
+    env.subs = dict(default_subs())
+    for s in earlier:
+        env.subs[s.name] = s.subdef
+    body = []
+    nst = draw(st.integers(0, 3))
+    for _ in range(nst):
+        body.append(draw(sub_stmt(env, 2)))
+    env.busy = set()
+    if "nontail_return" in f and draw(st.booleans()):
+        body.append(("if", draw(condition(env, 1)), ("block", [("return", draw(expr(env, 1, False)))]), None))
+    if "if" in f and draw(st.booleans()):
+        c = draw(condition(env, 1))
+        saved = dict(env.vars)
+        a = [draw(sub_stmt(env, 1)), ("return", draw(expr(env, 2, bool(earlier))))]
+        env.vars = dict(saved)
+        b = [draw(sub_stmt(env, 1)), ("return", draw(expr(env, 2, bool(earlier))))]
+        env.vars = saved
+        body.append(("if", c, ("block", a), ("block", b)))
+    else:
+        body.append(("return", draw(expr(env, 2, bool(earlier)))))
+    spec = SubSpec(name, ret, params, body)
+    from .cref import make_subdef
+    spec.subdef = make_subdef(name, spec.c_ret(), spec.c_params(), spec.c_body())
+    return spec
+
+
+def _bump(env, pre):
+    env.n += 1
+    return f"{pre}{env.n}"
+
+
+@st.composite
+def sub_stmt(draw, env, depth):
+    env.busy = set()
+    k = draw(st.sampled_from(["decl", "decl", "assign", "if"] + (["for"] if "loop" in env.features else [])))
+    # parameters are immutable in the compiler's model (assignment to one is rejected): only locals are assigned
+    names = [n for n in sorted(env.vars) if not n.startswith("__") and n not in getattr(env, "readonly", ())]
+    if k == "decl" or not names:
+        t = draw(st.sampled_from(_types(env)))
+        e = draw(expr(env, depth, False))
+        n = env.fresh()
+        env.vars[n] = t
+        return ("decl", t, n, e, False)
+    if k == "assign":
+        n = draw(st.sampled_from(names))
+        return ("expr", ("assign", "=", ("var", n), draw(expr(env, depth, False))))
+    if k == "if":
+        c = draw(condition(env, 1))
+        saved = dict(env.vars)
+        n = draw(st.sampled_from(names))
+        th = ("block", [("expr", ("assign", "=", ("var", n), draw(expr(env, depth, False))))])
+        env.vars = saved
+        return ("if", c, th, None)
+    cnt = env.fresh("c")
+    saved = dict(env.vars)
+    env.vars[cnt] = (False, 32)
+    n = draw(st.sampled_from(names))
+    bodyst = ("block", [("expr", ("assign", "=", ("var", n), ("bin", "+", ("var", n), ("var", cnt))))])
+    env.vars = saved
+    bound = ("bin", "&", draw(leaf(env, want_nonconst=True)), num(3))
+    return ("for", ("decl", (False, 32), cnt, num(0), False), ("bin", "<", ("var", cnt), ("cast", (False, 32), bound)),
+            ("post", "++", ("var", cnt)), bodyst)
